@@ -55,6 +55,13 @@ def generate(seed, tier):
             # deferred: collected at the call line, completed (with the returned value) and handed over when it ends
             tp["line"] = "midcall"
             tp["args"]["stage"] = "line_capture"
+        if r.random() < 0.12:
+            # a tracepoint whose own text is not valid UTF-8 (registered in code with text that came from a file name or
+            # the environment): only such a tracepoint can carry it, the service cannot send it
+            tp["via"] = "direct"
+            tp["watches"] = tp["watches"] + ["'caf\udce9'"]
+            if r.random() < 0.5:
+                tp["args"]["log_msg"] = "user \udce9 {depth}"
         tps.append(tp)
     return {"prog": {"seed": seed, "name": "simval_%d" % (seed % 5), "opts": opts}, "tps": tps,
             "threads": [r.choice((1, 2))] if r.random() < 0.7 else [1, 1], "auth": r.choice(AUTHS),
@@ -131,10 +138,11 @@ def compare(es, snap):
     diff("ID", es.id.to_bytes(16, "big"), snap.ID)
     t = es.tracepoint
     diff("tracepoint.ID", t.id, snap.tracepoint.ID)
-    diff("tracepoint.path", t.path, snap.tracepoint.path)
+    diff("tracepoint.path", esc(t.path), snap.tracepoint.path)
     diff("tracepoint.line_number", t.line_no, snap.tracepoint.line_number)
-    diff("tracepoint.args", dict(t.args), dict(snap.tracepoint.args))
-    diff("tracepoint.watches", list(t.watches), list(snap.tracepoint.watches))
+    # (text that is not valid UTF-8 arrives escaped, as everywhere else in the message)
+    diff("tracepoint.args", {esc(k_): esc(v_) for k_, v_ in dict(t.args).items()}, dict(snap.tracepoint.args))
+    diff("tracepoint.watches", [esc(x) for x in t.watches], list(snap.tracepoint.watches))
     diff("ts_nanos", es.ts_nanos, snap.ts_nanos)
     diff("duration_nanos", es.duration_nanos, snap.duration_nanos)
     diff("log_msg", esc(es.log_msg or ""), snap.log_msg)
@@ -216,6 +224,8 @@ def execute(scenario, ch):
     errs = set(scenario["send_errors"])
     sc["send_faults"] = (lambda idx: {"kind": "error"} if idx in errs else None)
     k, cases, ctx = snapcommon.run_cases(sc, ch)
+    if k.capped and not k.hang:
+        return common.result(k, [])     # cut off by the step / time budget: a half-done run, inconclusive
     viol = []
     w = ctx["world"]
     svc = w.service
